@@ -573,13 +573,15 @@ _replay_lock = threading.Lock()
 _replay_built = {}
 
 
-def build_replay(repo, prop, profile):
+def build_replay(repo, prop, profile, private=False):
     import fcntl
-    key = (repo, profile)
+    key = (repo, profile, private)
     with _replay_lock:
         if key in _replay_built:
             return _replay_built[key]
-        tdir = os.path.join(CACHE, "rt")
+        # private: own target directory inside the run's scratch directory (used when the binary from the
+        # shared cache turned out to belong to a concurrently running check of another property)
+        tdir = os.path.join(os.path.dirname(repo), "rt_private") if private else os.path.join(CACHE, "rt")
         os.makedirs(tdir, exist_ok=True)
         env = dict(os.environ, CARGO_NET_OFFLINE="true", RUSTFLAGS="--cfg verif_replay -A warnings",
                    CARGO_TARGET_DIR=tdir)
@@ -593,7 +595,7 @@ def build_replay(repo, prop, profile):
                 log(r.stdout[-5000:])
                 _replay_built[key] = None
                 return None
-            b = os.path.join(os.path.dirname(repo), "verif_replay_" + profile)
+            b = os.path.join(os.path.dirname(repo), "verif_replay_" + profile + ("_p" if private else ""))
             shutil.copy(os.path.join(tdir, profile if profile == "release" else "debug", "verif_replay"), b)
         _replay_built[key] = b
         return b
@@ -611,6 +613,13 @@ def replay_native(repo, prop, full, vals):
             r = subprocess.run([b, full] + [str(v) for v in vals], stdout=subprocess.PIPE,
                                stderr=subprocess.PIPE, text=True, timeout=120)
             m = re.search(r"REPLAY-RESULT: (\S+)", r.stdout)
+            if m and m.group(1) == "UNKNOWN-HARNESS":
+                # the shared-cache binary was built for another run's dispatch table: rebuild privately, once
+                b = build_replay(repo, prop, profile, private=True)
+                if b is not None:
+                    r = subprocess.run([b, full] + [str(v) for v in vals], stdout=subprocess.PIPE,
+                                       stderr=subprocess.PIPE, text=True, timeout=120)
+                    m = re.search(r"REPLAY-RESULT: (\S+)", r.stdout)
             if m:
                 out[profile] = m.group(1)
             else:
